@@ -111,7 +111,9 @@ func (ft *fnTrans) call(x ssa.Value, c *ssa.CallCommon, h *Heap, reach string) {
 	}
 	// unknown callee: everything may change
 	vc.assumed["havoc (no contract): "+key] = true
+	pre := h.clone()
 	vc.havocAll(h)
+	ft.preserveLocals(pre, h)
 	for i, rs := range resSorts {
 		n := vc.fresh(nameOr(x, "call"), rs)
 		ft.assumeWF(n, sig.Results().At(i).Type(), *h)
@@ -662,4 +664,20 @@ func (ft *fnTrans) higherOrder(x ssa.Value, key string, c *ssa.CallCommon, h *He
 		vc.assumeClosed(*h, comp)
 	}
 	return true
+}
+
+
+// preserveLocals: a callee cannot reach non-escaping locals of the caller (go/ssa marks them Heap=false),
+// so their contents survive a havoc of the whole heap.
+func (ft *fnTrans) preserveLocals(pre Heap, h *Heap) {
+	vc := ft.vc
+	for v, r := range ft.vals {
+		a, ok := v.(*ssa.Alloc)
+		if !ok || a.Heap {
+			continue
+		}
+		for _, c := range ft.objectComps(a.Type().(*types.Pointer).Elem()) {
+			vc.assume(eq(sel(vc.get(*h, c), r), sel(vc.get(pre, c), r)))
+		}
+	}
 }
